@@ -831,7 +831,7 @@ pub fn eval_case(c: &Case13) -> CaseOutcome {
             Status::Blocked => CaseOutcome::Fail { key: "c13|recursion|blocked".into(), what: "recursive macro use: the emulator went to sleep for good".into(), replay: creplay },
             Status::Exit(code) => {
                 let so = out.out_str();
-                if *code != 0 || out.panicked() {
+                if !own_exit(*code) || out.panicked() {
                     return CaseOutcome::Fail { key: "c13|recursion|abnormal-exit".into(), what: format!("recursive macro use: exit status {} {}", code, out.err_str().lines().next().unwrap_or("")), replay: creplay };
                 }
                 if !so.contains("Syntax Error") {
